@@ -103,6 +103,114 @@ theorem C18_rdkit_tables :
     (∀ t ∈ [1, 2, 3], dictGet t Gen.C18.kekulizedToAromatic = some (t + 4)) := by
   decide
 
+/-! ## More of the source as regenerated facts (pass 7) -/
+
+/-- Regenerated from the source on every run: the V2000 writer of the current `ctab.py`, f-string by f-string: alignment, width, precision and type of every field (`>10.4f` ×3, blank, element left-aligned in 3 via `capitalize()`, `>2` constant 0, `>3d` charge code with fall-back 0, ten `>3d` zeros; bond partners `+ 1`; `M  CHG` head and entry), the literal tail of the counts line, the order of the line groups, the element width guard and the order of the guards.  Each conjunct is what the hand-written model
+(Model/C18*.lean) and the adapters hard-code. -/
+theorem C18_gen_v2000_writer :
+    Gen.C18.countsLineShape = [("fmt", ">3d", "value"), ("fmt", ">3d", "value"), ("lit", "  0     0  0  0  0  0  0  1 V2000", "")] ∧
+    Gen.C18.atomLineShape = [("fmt", ">10.4f", "value"), ("fmt", ">10.4f", "value"), ("fmt", ">10.4f", "value"), ("lit", " ", ""), ("fmt", "3", "call:capitalize"), ("fmt", ">2", "const:0"), ("fmt", ">3d", "dictget-default:0"), ("fmt", ">3d", "const:0"), ("fmt", ">3d", "const:0"), ("fmt", ">3d", "const:0"), ("fmt", ">3d", "const:0"), ("fmt", ">3d", "const:0"), ("fmt", ">3d", "const:0"), ("fmt", ">3d", "const:0"), ("fmt", ">3d", "const:0"), ("fmt", ">3d", "const:0"), ("fmt", ">3d", "const:0")] ∧
+    Gen.C18.bondLineShape = [("fmt", ">3d", "plus:1"), ("fmt", ">3d", "plus:1"), ("fmt", ">3d", "value"), ("fmt", ">3d", "const:0"), ("fmt", ">3d", "const:0"), ("fmt", ">3d", "const:0"), ("fmt", ">3d", "const:0")] ∧
+    Gen.C18.chargeHeadShape = [("lit", "M  CHG", ""), ("fmt", ">3d", "call:len")] ∧
+    Gen.C18.chargeEntryShape = [("lit", " ", ""), ("fmt", ">3d", "plus:1"), ("lit", " ", ""), ("fmt", ">3d", "value")] ∧
+    Gen.C18.v2000LineOrder = ["name:counts_line", "name:atom_lines", "name:bond_lines", "name:charge_lines", "lit:M  END"] ∧
+    Gen.C18.elemGuard = ("Gt", 3) ∧
+    Gen.C18.v2000GuardOrder = true ∧
+    Gen.C18.writerPlus = [1] := by
+  decide
+
+/-- Regenerated from the source on every run: the V3000 writer: marker line, block skeleton, `M  V30 ` prefix, the COUNTS / atom / bond line f-strings (`.4f`, `+ 1`, `_quote`, `_to_property`), `_to_property` (`== 0` → empty, else `CHG={}`), `_quote` (blank inside or empty → double quotes).  Each conjunct is what the hand-written model
+(Model/C18*.lean) and the adapters hard-code. -/
+theorem C18_gen_v3000_writer :
+    Gen.C18.compatLine = "  0  0  0  0  0  0  0  0  0  0999 V3000" ∧
+    Gen.C18.v3000CountsShape = [("lit", "COUNTS ", ""), ("fmt", "", "value"), ("lit", " ", ""), ("fmt", "", "value"), ("lit", " 0 0 0", "")] ∧
+    Gen.C18.v3000AtomShape = [("fmt", "", "plus:1"), ("lit", " ", ""), ("fmt", "", "call:_quote"), ("lit", " ", ""), ("fmt", ".4f", "value"), ("lit", " ", ""), ("fmt", ".4f", "value"), ("lit", " ", ""), ("fmt", ".4f", "value"), ("lit", " 0 ", ""), ("fmt", "", "call:_to_property")] ∧
+    Gen.C18.v3000BondShape = [("fmt", "", "plus:1"), ("lit", " ", ""), ("fmt", "", "value"), ("lit", " ", ""), ("fmt", "", "plus:1"), ("lit", " ", ""), ("fmt", "", "plus:1")] ∧
+    Gen.C18.v3000Skeleton = ["lit:BEGIN CTAB", "name:counts_line", "lit:BEGIN ATOM", "name:atom_lines", "lit:END ATOM", "lit:BEGIN BOND", "name:bond_lines", "lit:END BOND", "lit:END CTAB"] ∧
+    Gen.C18.v30Prefix = "M  V30 " ∧
+    Gen.C18.v3000Return = ["name:V2000_COMPATIBILITY_LINE", "name:lines", "lit:M  END"] ∧
+    Gen.C18.toPropertyShape = ["Eq:0", "CHG={}", "''"] ∧
+    Gen.C18.quoteShape = ["Or", "In:' '", "Eq:0", "\"{}\""] := by
+  decide
+
+/-- Regenerated from the source on every run: the readers: `M  CHG` / `M  V30` prefixes and the `line[9:]` / `line[6:]` cuts, block markers and the blocks read, the V3000 column indices, the `R#` / `CHG` / quote constants, the `=` split, the `- 1` offsets, the version strings of both dispatchers in `case` order.  Each conjunct is what the hand-written model
+(Model/C18*.lean) and the adapters hard-code. -/
+theorem C18_gen_readers :
+    Gen.C18.r2StartsWith = ["M  CHG"] ∧
+    Gen.C18.r2OpenSlices = [9] ∧
+    Gen.C18.r3StartsWith = ["M  V30"] ∧
+    Gen.C18.r3OpenSlices = [6] ∧
+    Gen.C18.blockMarkers = ["BEGIN {}", "END {}"] ∧
+    Gen.C18.blocksRead = ["ATOM", "BOND"] ∧
+    Gen.C18.r3Columns = ["0", "1", "2:5", "6:", "1", "2", "3"] ∧
+    Gen.C18.r3Strings = ["\"", "'", "CHG", "R#"] ∧
+    Gen.C18.propSplit = ["="] ∧
+    Gen.C18.readerMinus = [1] ∧
+    Gen.C18.versionCases = ["V2000", "V3000", "", "<capture>", "None", "V2000", "V3000", "<capture>"] := by
+  decide
+
+/-- Regenerated from the source on every run: `sdf.py`, `mol.py`, `convert.py`: three header lines, the `$$$$` delimiter recognised and checked with `startswith`, the key regexes in dict order, the pieces of `Key.serialize` in order, the guards of `__post_init__` and `_check_metadata_value`, the forward scan of `_get_ctab_stop` from `_N_HEADER` and of `_get_ctab_lines` from `N_HEADER`, the invented record name and the `not in` guard of the convert wrapper, `AddConformer(assignId=True)`.  Each conjunct is what the hand-written model
+(Model/C18*.lean) and the adapters hard-code. -/
+theorem C18_gen_sdf :
+    Gen.C18.nHeader = (3, 3) ∧
+    Gen.C18.recordDelimiter = "$$$$" ∧
+    Gen.C18.keyNameRegex = "^[a-zA-Z0-9][\\w.]*\\Z" ∧
+    Gen.C18.keyComponentRegex = [("number", "^DT(\\d+)$"), ("name", "^<([a-zA-Z0-9][\\w.]*)>$"), ("registry_internal", "^(\\d+)$"), ("registry_external", "^\\(([\\w.-]*)\\)$")] ∧
+    Gen.C18.keyExtRegex = ["^[\\w.-]*\\Z"] ∧
+    Gen.C18.keyNumberGuards = ["Lt:0", "Lt:0"] ∧
+    Gen.C18.keySerializePieces = ["init:> ", "DT{number} ", "<{name}> ", "{registry_internal} ", "({registry_external}) "] ∧
+    Gen.C18.valueChecks = [">", "\n", "Eq:0", "Eq:0", "call:startswith", "NotEq:/splitlines"] ∧
+    Gen.C18.mdDeserializeStrings = [">", "\n"] ∧
+    Gen.C18.ctabStopShape = ["args:2", "start:_N_HEADER", "M  END", "ret:+1"] ∧
+    Gen.C18.ctabLinesShape = ["enumerate-from:N_HEADER/start=N_HEADER", "M  END"] ∧
+    Gen.C18.delimiterTest = ["startswith:_RECORD_DELIMITER"] ∧
+    Gen.C18.delimiterCheck = ["startswith:_RECORD_DELIMITER"] ∧
+    Gen.C18.convertShape = ["Molecule", "NotIn"] ∧
+    Gen.C18.addConformerKeywords = ["assignId=True"] := by
+  decide
+
+/-- Regenerated from the source on every run: `header.py`: which `Header` field is read from which columns of the second line (and stripped), the order in which the fields are written, the three line indices, the dataclass field order.  Each conjunct is what the hand-written model
+(Model/C18*.lean) and the adapters hard-code. -/
+theorem C18_gen_header_fields :
+    Gen.C18.headerFieldSlices = [("initials", 0, 2, true), ("program", 2, 10, true), ("time", 10, 20, false), ("dimensions", 20, 22, true), ("scaling_factors", 22, 34, true), ("energy", 34, 46, true), ("registry_number", 46, 52, true)] ∧
+    Gen.C18.headerWriteOrder = ["initials", "program", "time", "dimensions", "scaling_factors", "energy", "registry_number"] ∧
+    Gen.C18.headerLineIndices = [0, 1, 2] ∧
+    Gen.C18.headerDataclassFields = ["mol_name", "initials", "program", "time", "dimensions", "scaling_factors", "energy", "registry_number", "comments"] := by
+  decide
+
+/-- Regenerated from the source on every run: the exception classes the anchored functions raise, in source order — the classes the model's `Err` values print and the oracle demands.  Each conjunct is what the hand-written model
+(Model/C18*.lean) and the adapters hard-code. -/
+theorem C18_gen_exceptions :
+    Gen.C18.raisesTable = [("write_structure_to_ctab", ["TypeError", "BadStructureError", "BadStructureError", "ValueError", "ValueError"]), ("_write_structure_to_ctab_v2000", ["BadStructureError", "BadStructureError"]), ("_write_structure_to_ctab_v3000", ["BadStructureError"]), ("read_structure_from_ctab", ["InvalidFileError", "InvalidFileError"]), ("_read_structure_from_ctab_v3000", ["InvalidFileError", "NotImplementedError"]), ("_get_block_v3000", ["InvalidFileError"]), ("Key.__post_init__", ["ValueError", "ValueError", "ValueError", "ValueError", "ValueError"]), ("Key.deserialize", ["DeserializationError", "DeserializationError"]), ("Metadata.deserialize", ["DeserializationError"]), ("_check_metadata_value", ["ValueError", "ValueError", "ValueError", "ValueError"]), ("_add_key_value_pair", ["DeserializationError"]), ("SDRecord.get_structure", ["InvalidFileError"]), ("SDFile.serialize", ["SerializationError", "SerializationError"]), ("SDFile.__getitem__", ["DeserializationError"]), ("SDFile.__setitem__", ["TypeError"]), ("SDFile.record", ["ValueError", "ValueError"]), ("Header.serialize", ["ValueError", "ValueError"]), ("MOLFile.get_structure", ["InvalidFileError"]), ("to_mol", ["BadStructureError", "BadStructureError"]), ("from_mol", ["BadStructureError"])] := by
+  decide
+
+/-- Regenerated from the source on every run: the default argument values of the public entry points and of the `Header` / `Metadata.Key` fields that the adapters and the model assume (`default_bond_type=BondType.ANY`, `version=None`, `record_name=None`, `kekulize=False`, …).  Each conjunct is what the hand-written model
+(Model/C18*.lean) and the adapters hard-code. -/
+theorem C18_gen_defaults :
+    Gen.C18.defaultsTable = [("write_structure_to_ctab", [("atoms", "<required>"), ("default_bond_type", "BondType.ANY"), ("version", "None")]), ("MOLFile.set_structure", [("atoms", "<required>"), ("default_bond_type", "BondType.ANY"), ("version", "None")]), ("SDRecord.set_structure", [("atoms", "<required>"), ("default_bond_type", "BondType.ANY"), ("version", "None")]), ("SDRecord.__init__", [("header", "None"), ("ctab", "None"), ("metadata", "None")]), ("SDFile.__init__", [("records", "None")]), ("Metadata.__init__", [("metadata", "None")]), ("convert.get_structure", [("mol_file", "<required>"), ("record_name", "None")]), ("convert.set_structure", [("mol_file", "<required>"), ("atoms", "<required>"), ("default_bond_type", "BondType.ANY"), ("version", "None"), ("record_name", "None")]), ("to_mol", [("atoms", "<required>"), ("kekulize", "False"), ("use_dative_bonds", "False"), ("include_extra_annotations", "()"), ("explicit_hydrogen", "None")]), ("from_mol", [("mol", "<required>"), ("conformer_id", "None"), ("add_hydrogen", "None")]), ("Header", [("mol_name", "''"), ("initials", "''"), ("program", "''"), ("time", "None"), ("dimensions", "''"), ("scaling_factors", "''"), ("energy", "''"), ("registry_number", "''"), ("comments", "''")]), ("Metadata.Key", [("number", "None"), ("name", "None"), ("registry_internal", "None"), ("registry_external", "None")])] := by
+  decide
+
+/-- The literals above are the ones the executable model is built from (evaluated): marker line,
+`M  V30 ` prefix, `M  END`, `$$$$`, the tail of the counts line, the `M  CHG` head, the block
+keywords of a written V3000 table, and the error classes of the refusals. -/
+theorem C18_gen_model_literals :
+    Gen.C18.compatLine.toList = compatLine ∧
+    Gen.C18.v30Prefix.toList = v30 [] ∧
+    ("lit:" ++ String.ofList mEnd) ∈ Gen.C18.v2000LineOrder ∧ ("lit:" ++ String.ofList mEnd) ∈ Gen.C18.v3000Return ∧
+    Gen.C18.recordDelimiter.toList = delim ∧
+    (Gen.C18.countsLineShape.getLast?.map (·.2.1.toList)) = some ((countsLineV2000 0 0).drop 6) ∧
+    (Gen.C18.chargeHeadShape.head?.map (·.2.1.toList)) = some ((chargeLine []).take 6) ∧
+    (Gen.C18.r2StartsWith.map String.toList) = [(chargeLine []).take 6] ∧
+    ((writeV3000 ⟨[], []⟩ 0).toOption.map fun ls => ls.map String.ofList)
+      = some ([Gen.C18.compatLine] ++ (["BEGIN CTAB", "COUNTS 0 0 0 0 0", "BEGIN ATOM", "END ATOM", "BEGIN BOND", "END BOND", "END CTAB"].map
+          (Gen.C18.v30Prefix ++ ·)) ++ ["M  END"]) ∧
+    (Gen.C18.nHeader.1 = 3 ∧ ctabStop 0 [[], [], mEnd, mEnd] = 4) ∧
+    (Gen.C18.raisesTable.lookup "write_structure_to_ctab").map (·.getLast?) = some (some (Err.toString (match writeCtab ⟨[], []⟩ 0 .unknown with | .error e => e | .ok _ => .other ""))) ∧
+    (Gen.C18.raisesTable.lookup "_write_structure_to_ctab_v2000").map (·.head?) = some (some (Err.toString .badStructure)) ∧
+    (Gen.C18.raisesTable.lookup "Key.deserialize").map (·.head?) = some (some (Err.toString deserErr)) ∧
+    (Gen.C18.raisesTable.lookup "SDFile.serialize").map (·.getLast?) = some (some (Err.toString serErr)) := by
+  decide
+
 /-! ## Version selection -/
 
 /-- Counts that do not fit three columns select V3000, or raise `ValueError` when V2000 was asked
